@@ -7,6 +7,7 @@ with the specification table `expected()` transcribed from the operator tables i
 docstrings and from the statement.  A per-dunder tap records which method answered (diagnosis).
 Must-raise is asserted only for two *different* library classes not in the table.
 """
+import itertools
 import math
 import operator
 
@@ -298,6 +299,8 @@ def run_cell(ctx, p):
     la = 'M' if (L in CLASSES and hasattr(a, 'data') and isinstance(a.data, list) and len(a.data) > 1) else '1'
     lb = 'M' if (R in CLASSES and hasattr(b, 'data') and isinstance(b.data, list) and len(b.data) > 1) else '1'
     sig = dict(left=L, right=R, op=op, lens=la + 'x' + lb)
+    if L in CLASSES and R in CLASSES and p['a'] == [] and p['b'] == []:
+        sig['lens'] = '0x0'
     if p.get('sameobj'):
         sig['sameobj'] = True
     if p.get('unequal'):
@@ -545,6 +548,13 @@ def run(ctx):
                 i += 1
                 if ctx.mine(i):
                     drive(RUNNERS, ctx, 'mixed_eq', dict(cls=c, order=order, other=other))
+    # operands of two different classes that both hold no value: the pair is refused like any other pair of these classes
+    # (with values it may be refused only because the shapes of the values happen to differ)
+    for L_, R_ in itertools.permutations(POSES, 2):
+        for op in ARITH:
+            i += 1
+            if ctx.mine(i):
+                drive(RUNNERS, ctx, 'cell', dict(L=L_, R=R_, op=op, a=[], b=[], exp=['raise']))
     # operands holding no value (Empty()): never None
     for c in POSES + ['Quaternion', 'UnitQuaternion', 'Twist2', 'Twist3']:
         d_ = 2 if c in ('SO2', 'SE2', 'Twist2') else 3
